@@ -118,6 +118,10 @@ pub enum Blocking {
     /// All blocks compressed with zstd's *streaming* API (frames without a declared content
     /// size, as most independent implementations produce), of the given size.
     CompressedStream(usize),
+    /// All blocks raw, of the given size, written by an encoder that flushes unconditionally when
+    /// it closes the stream: a zero-length raw block precedes the end tag whenever the stream is
+    /// empty or an exact multiple of the block size (legal in the layout).
+    RawFlushEmpty(usize),
 }
 
 // ------------------------------------------------------------------------------------------
@@ -224,13 +228,13 @@ pub fn encode_raw_stream(buf: &mut Vec<u8>, raw: &[u8], blocking: Blocking) -> B
     let mut stats = BlockStats::default();
     let size = match blocking {
         Blocking::Canonical => BLOCK,
-        Blocking::CanonicalWith(n) | Blocking::Raw(n) | Blocking::Compressed(n) | Blocking::Mixed(n) | Blocking::CompressedStream(n) => n.clamp(1, 65_535),
+        Blocking::CanonicalWith(n) | Blocking::Raw(n) | Blocking::Compressed(n) | Blocking::Mixed(n) | Blocking::CompressedStream(n) | Blocking::RawFlushEmpty(n) => n.clamp(1, 65_535),
     };
     for (i, chunk) in raw.chunks(size).enumerate() {
         stats.blocks += 1;
         let compressed: Option<Vec<u8>> = match blocking {
             Blocking::Canonical | Blocking::CanonicalWith(_) => zstd_fit(chunk),
-            Blocking::Raw(_) => None,
+            Blocking::Raw(_) | Blocking::RawFlushEmpty(_) => None,
             Blocking::Compressed(_) => zstd::bulk::compress(chunk, 0).ok().filter(|c| c.len() <= 65_535),
             Blocking::CompressedStream(_) => {
                 use std::io::Write;
@@ -263,6 +267,12 @@ pub fn encode_raw_stream(buf: &mut Vec<u8>, raw: &[u8], blocking: Blocking) -> B
                 buf.extend_from_slice(chunk);
             }
         }
+    }
+    if matches!(blocking, Blocking::RawFlushEmpty(_)) && raw.len() % size == 0 {
+        stats.blocks += 1;
+        stats.raw_blocks += 1;
+        buf.push(2);
+        put_u16(buf, 0);
     }
     buf.push(0);
     stats
